@@ -66,7 +66,7 @@ Say(kind, r, what) == SayI(kind, r, what, "")
 Chk(cond, r, what) == cond \/ Say("fail", r, what)
 ChkI(cond, r, what, info) == cond \/ SayI("fail", r, what, info)
 \* the definition kinds of a set of tags, as a string in a fixed order (narrow signatures for known findings)
-KindOrder == <<"P", "D", "C", "L", "B", "I", "M", "R", "N", "S", "?">>
+KindOrder == <<"P", "D", "C", "L", "B", "E", "I", "M", "R", "N", "S", "?">>
 KindsOf(T) ==
     LET ks == {tags[t].def.k : t \in T}
         RECURSIVE cat(_)
